@@ -77,6 +77,69 @@ fn c01_witness() {
     assert!(false, "witness");
 }
 
+/// The id the (stubbed) TLS-name decoder hands back: written by the harness, read by the stub.
+static mut DIALED: [u8; 32] = [0; 32];
+fn decode_stub(_name: &str) -> Option<iroh_base::EndpointId> {
+    Some(vs::key_from(unsafe { DIALED }))
+}
+/// `name::encode` of the all-zero key (BASE32_DNSSEC of 32 zero bytes is 52 '0's): natively the
+/// real `name::decode` maps it to the zero key, which is what the stub returns in the zero-key harness.
+const ZERO_NAME: &str = "0000000000000000000000000000000000000000000000000000.iroh.invalid";
+const ED25519_SPKI_PREFIX: [u8; 12] = [0x30, 0x2a, 0x30, 0x05, 0x06, 0x03, 0x2b, 0x65, 0x70, 0x03, 0x21, 0x00];
+
+fn server_cert_kernel(symbolic_key: bool) {
+    let ee: [u8; 44] = kani::any();
+    let key: [u8; 32] = kani::any();
+    let with_intermediate: bool = kani::any();
+    unsafe {
+        DIALED = if symbolic_key { key } else { [0u8; 32] };
+    }
+    let dialed = unsafe { DIALED };
+    let name = rustls::pki_types::ServerName::try_from(ZERO_NAME).unwrap();
+    let cert = Certificate::from(&ee[..]);
+    let inter = [Certificate::from(&ED25519_SPKI_PREFIX[..3])];
+    let chain: &[Certificate] = if with_intermediate { &inter[..] } else { &[] };
+    let now = rustls::pki_types::UnixTime::since_unix_epoch(std::time::Duration::from_secs(1));
+    let r = ServerCertificateVerifier.verify_server_cert(&cert, chain, &name, &[], now);
+    let mut same = true;
+    let mut i = 0;
+    while i < 44 {
+        let want = if i < 12 { ED25519_SPKI_PREFIX[i] } else { dialed[i - 12] };
+        if ee[i] != want {
+            same = false;
+        }
+        i += 1;
+    }
+    // accepted exactly when the presented raw key is the SPKI of the dialed id, with no chain
+    assert!(r.is_ok() == (same && !with_intermediate));
+    kani::cover!(r.is_ok());
+    kani::cover!(r.is_err() && !with_intermediate);
+    core::mem::forget(r);
+}
+
+/// C01: `verify_server_cert` accepts a presented raw public key exactly when it is the Ed25519
+/// SPKI of the dialed endpoint id (the id the TLS server name decodes to) and there are no
+/// intermediates.  The name decoder is stubbed (str::split does not finish under CBMC); in this
+/// variant it returns the zero key for the zero key's real name, so a counterexample replays natively.
+#[kani::proof]
+#[kani::unwind(70)]
+#[kani::stub(crate::tls::name::decode, decode_stub)]
+#[kani::stub(vs::curve25519_dalek::edwards::CompressedEdwardsY::decompress, vs::decompress_all_valid)]
+#[kani::stub(n0_error::backtrace_enabled, vstubs::backtrace_disabled)]
+fn c01_server_cert_is_spki_of_dialed_id_zero_key() {
+    server_cert_kernel(false);
+}
+
+/// Same, for every dialed id (the decoder stub returns an arbitrary key).
+#[kani::proof]
+#[kani::unwind(70)]
+#[kani::stub(crate::tls::name::decode, decode_stub)]
+#[kani::stub(vs::curve25519_dalek::edwards::CompressedEdwardsY::decompress, vs::decompress_all_valid)]
+#[kani::stub(n0_error::backtrace_enabled, vstubs::backtrace_disabled)]
+fn c01_server_cert_is_spki_of_dialed_id_any_key() {
+    server_cert_kernel(true);
+}
+
 #[cfg(test)]
 mod playback {
     use super::*;
